@@ -34,6 +34,8 @@ pub struct GenCfg {
 	pub fault_kinds: Vec<&'static str>,
 	pub boundary_args: bool,
 	pub allow_late_lock: bool,
+	/// probability (per 100) that a new send is late-locked, when allowed
+	pub p_late_lock: u64,
 	pub allow_proof: bool,
 	pub allow_ttl: bool,
 	pub allow_self_send: bool,
@@ -94,6 +96,7 @@ impl GenCfg {
 			fault_kinds: vec![],
 			boundary_args: r.chance(1, 3),
 			allow_late_lock: r.chance(1, 2),
+			p_late_lock: 20,
 			allow_proof: r.chance(1, 2),
 			allow_ttl: false,
 			allow_self_send: r.chance(1, 3),
@@ -258,7 +261,7 @@ impl HistGen {
 		};
 		a.use_all = r.chance(1, 2);
 		a.incl_fee = r.chance(1, 6);
-		if self.cfg.allow_late_lock && r.chance(1, 5) {
+		if self.cfg.allow_late_lock && r.chance(self.cfg.p_late_lock, 100) {
 			a.late_lock = true;
 		}
 		if self.cfg.allow_ttl && r.chance(1, 3) {
